@@ -749,6 +749,21 @@ pub const fn forbidden_opts(kind: Kind) -> u8 {
     }
 }
 
+/// `sti` / `cli` as a block of their own delimit a critical section (interrupts.rs: "Omit `nomem`
+/// to imitate a lock release / acquire. Otherwise, the compiler is free to move reads and writes
+/// through this asm block"): `nomem` or `readonly` there lets the compiler move the memory
+/// accesses of a `without_interrupts` closure out of the section (C17: the closure runs with the
+/// flag clear). `sti; hlt` is a different block and keeps its `nomem`.
+pub fn check_barrier_opts() {
+    let bad = cur_opts() & (OPT_NOMEM | OPT_READONLY);
+    if bad != 0 {
+        #[cfg(kani)]
+        kani::assert(false, "VERIF-ASM-OPTIONS: nomem / readonly on a standalone sti / cli: the block no longer orders the memory accesses of the critical section");
+        #[cfg(not(kani))]
+        panic!("VERIF-ASM-OPTIONS: asm options contradict the instruction");
+    }
+}
+
 fn check_opts(kind: Kind) {
     let bad = cur_opts() & forbidden_opts(kind);
     if bad != 0 {
@@ -1380,8 +1395,8 @@ macro_rules! hw_asm {
 
     // ---- no operands ---------------------------------------------------------
     // interrupts.rs
-    ("sti" $(, options($($o:tt)*))? $(,)?) => {{ $crate::verif_hw::begin_block(); $crate::verif_hw::set_opts($crate::hw_opts!($($($o)*)?)); $crate::verif_hw::sti(); }};
-    ("cli" $(, options($($o:tt)*))? $(,)?) => {{ $crate::verif_hw::begin_block(); $crate::verif_hw::set_opts($crate::hw_opts!($($($o)*)?)); $crate::verif_hw::cli(); }};
+    ("sti" $(, options($($o:tt)*))? $(,)?) => {{ $crate::verif_hw::begin_block(); $crate::verif_hw::set_opts($crate::hw_opts!($($($o)*)?)); $crate::verif_hw::check_barrier_opts(); $crate::verif_hw::sti(); }};
+    ("cli" $(, options($($o:tt)*))? $(,)?) => {{ $crate::verif_hw::begin_block(); $crate::verif_hw::set_opts($crate::hw_opts!($($($o)*)?)); $crate::verif_hw::check_barrier_opts(); $crate::verif_hw::cli(); }};
     ("sti; hlt" $(, options($($o:tt)*))? $(,)?) => {{ $crate::verif_hw::begin_block(); $crate::verif_hw::set_opts($crate::hw_opts!($($($o)*)?)); $crate::verif_hw::sti(); $crate::verif_hw::hlt(); }};
     ("int3" $(, options($($o:tt)*))? $(,)?) => {{ $crate::verif_hw::begin_block(); $crate::verif_hw::set_opts($crate::hw_opts!($($($o)*)?)); $crate::verif_hw::int3(); }};
     ("int {num}", num = const $n:expr $(, options($($o:tt)*))? $(,)?) => {{ $crate::verif_hw::begin_block(); $crate::verif_hw::set_opts($crate::hw_opts!($($($o)*)?)); $crate::verif_hw::int_n(($n) as u8); }};
